@@ -115,6 +115,7 @@ func verifXfer(b bpv7.Bundle, mtu uint64, waitDeliver time.Duration) (line strin
 	var mu sync.Mutex
 	var segs []*msgs.DataTransmissionMessage
 	var acks []string
+	endAcked := false
 	done := make(chan struct{})
 	defer close(done)
 	go func() {
@@ -145,6 +146,9 @@ func verifXfer(b bpv7.Bundle, mtu uint64, waitDeliver time.Duration) (line strin
 				if a, ok := m.(*msgs.DataAcknowledgementMessage); ok {
 					mu.Lock()
 					acks = append(acks, strconv.FormatUint(a.AckLen, 10))
+					if a.Flags&msgs.SegmentEnd != 0 {
+						endAcked = true
+					}
 					mu.Unlock()
 				}
 				select {
@@ -181,6 +185,13 @@ func verifXfer(b bpv7.Bundle, mtu uint64, waitDeliver time.Duration) (line strin
 	res := "ok"
 	if err := tm1.Send(b); err != nil {
 		res = "err"
+	}
+	// Sampled at the moment Send returns: has an acknowledgement of the END segment come back?
+	mu.Lock()
+	endAckedAtReturn := endAcked
+	mu.Unlock()
+	if res == "ok" && !endAckedAtReturn {
+		res = "ok-before-end-acked"
 	}
 	select {
 	case <-delivDone:
@@ -479,7 +490,7 @@ func TestVerifC11(t *testing.T) {
 			go func(b bpv7.Bundle, m int) {
 				defer wg.Done()
 				defer func() { <-sem }()
-				emit(verifXfer(b, uint64(m), 300*time.Millisecond))
+				emit(verifXfer(b, uint64(m), 8*time.Second))
 			}(b, m)
 		}
 	}
@@ -490,7 +501,7 @@ func TestVerifC11(t *testing.T) {
 			var enc bytes.Buffer
 			_ = b.MarshalCbor(&enc)
 			for _, m := range []int{1 << 20, enc.Len(), enc.Len() / 2, 65535} {
-				emit(verifXfer(b, uint64(m), 2*time.Second))
+				emit(verifXfer(b, uint64(m), 20*time.Second))
 			}
 		}
 	}
